@@ -15,7 +15,7 @@ CHECK = {'rule': 'rapid-generated signalling programs: context kind in {plain, i
                               'kind:isolated',
                               'kind:scope',
                               'kind:child',
-                              'kind:isochild', 'isolated-of-done-parent', 'post-append-on-isolated-and-parent']},
+                              'kind:isochild', 'isolated-of-done-parent', 'post-append-on-isolated-and-parent', 'caller-owned-error-list-reused']},
  'tiers': {'quick': [{'test': '^TestProp$', 'checks': 5000, 'shards': 6, 'timeout': 240}],
            'thorough': [{'test': '^TestProp$', 'checks': 30000, 'shards': 16, 'timeout': 3000}]}}
 
